@@ -168,6 +168,9 @@ pub fn main(args: &[String]) -> i32 {
             if let Some(x) = o2["dot_matches_new_line"].as_bool() {
                 b = b.dot_matches_new_line(x);
             }
+            if let Some(x) = o2["lex_wae"].as_bool() {
+                b = b.warnings_are_errors(x);
+            }
             if let Some(x) = o2["allow_missing_terms_in_lexer"].as_bool() {
                 b = b.allow_missing_terms_in_lexer(x);
             }
